@@ -141,6 +141,16 @@ type Obs struct {
 	ChLen   int        `json:"ch_len"`          // len(sm.Ch()) after the operation
 	Parked  int        `json:"parked"`          // job goroutines started and not returned (parked in their send)
 	Tasks   []TaskObs  `json:"tasks,omitempty"` // operator class: the tasks made of the strings handled by this operation
+	// Queues (queues class): the CONTENTS of every queue of the operator's TaskQueueSet after the
+	// operation, by queue number (0 = "main"), head first
+	Queues []QueueObs `json:"queues,omitempty"`
+}
+
+// QueueObs: one queue of the real TaskQueueSet and the tasks that sit in it
+type QueueObs struct {
+	Queue int       `json:"queue"`
+	Name  string    `json:"name"`
+	Tasks []TaskObs `json:"tasks"`
 }
 type Observation struct {
 	Steps   []Obs    `json:"steps"`
@@ -249,6 +259,7 @@ type rawStep struct {
 	chlen   int
 	parked  int
 	tasks   []TaskObs
+	queues  []QueueObs
 }
 
 // smAPI: what the driver uses of the real *scheduleManager (an unexported type)
@@ -283,6 +294,11 @@ type rig struct {
 	can      func(h int, crontab string) bool
 	handle   func(h int, crontab string) []controller.BindingExecutionInfo
 	tasks    func(crontab string) []TaskObs // nil: no operator (class CCtl)
+	// queues class (queues.go): place = the string is received by the operator's REAL
+	// ManagerEventsHandler loop, which calls the schedule event handler and moves the tasks into
+	// the queues (returns when the loop is back at its select); queues = what every queue holds
+	place  func(crontab string)
+	queues func() []QueueObs
 	idStr    func(i int) string             // the id string of the model's id i
 	idNum    func(s string) int
 	queueNum func(s string) int
@@ -294,7 +310,7 @@ type rig struct {
 const nothingSent = "<the job sent nothing>"
 
 func Run(in Input) Observation {
-	if in.Via == "operator" {
+	if isOperator(in) {
 		r, err := operatorRig(in)
 		if r != nil && r.cleanup != nil {
 			defer r.cleanup()
@@ -422,6 +438,9 @@ func (r *rig) run(in Input) Observation {
 		if r.tasks != nil {
 			cur.tasks = append(cur.tasks, r.tasks(crontab)...)
 		}
+		if r.place != nil {
+			r.place(crontab)
+		}
 	}
 	blank := func() []FireObs {
 		fire := make([]FireObs, r.nHooks)
@@ -548,6 +567,9 @@ func (r *rig) run(in Input) Observation {
 			if r.tasks != nil {
 				st.tasks = append(st.tasks, r.tasks(in.str(op.C))...)
 			}
+			if r.place != nil {
+				r.place(in.str(op.C))
+			}
 		case "Tick":
 			// (the consumer first catches up with firings that still wait;) the job of the n-th
 			// registered cron entry runs; what it sends is dispatched
@@ -602,6 +624,9 @@ func (r *rig) run(in Input) Observation {
 			st.parked = anomaly + unsettled
 		}
 		st.entries, st.cron = snapshot()
+		if r.queues != nil {
+			st.queues = r.queues()
+		}
 		raw = append(raw, st)
 	}
 	// leave nothing behind (the child process runs many cases), then ask the entries that
@@ -665,7 +690,7 @@ func (r *rig) run(in Input) Observation {
 		}
 	}
 	for _, st := range raw {
-		o := Obs{Entries: []EntryObs{}, Cron: []CronObs{}, Fire: st.fire, Recv: []int{}, RecvStr: st.recv, ChLen: st.chlen, Parked: st.parked, Tasks: st.tasks}
+		o := Obs{Entries: []EntryObs{}, Cron: []CronObs{}, Fire: st.fire, Recv: []int{}, RecvStr: st.recv, ChLen: st.chlen, Parked: st.parked, Tasks: st.tasks, Queues: st.queues}
 		for c, s := range alphabet {
 			eo := EntryObs{C: c, Ids: []int{}}
 			for _, e := range st.entries {
@@ -750,6 +775,11 @@ func coqObs(o Obs) string {
 func coqHobs(o Obs) string {
 	return fmt.Sprintf("mkHobs (%s) %s", coqObs(o), core.CoqList(o.Tasks, coqTask))
 }
+func coqQobs(o Obs) string {
+	return fmt.Sprintf("mkQobs (%s) %s", coqHobs(o), core.CoqList(o.Queues, func(q QueueObs) string {
+		return fmt.Sprintf("(%d, %s)", q.Queue, core.CoqList(q.Tasks, coqTask))
+	}))
+}
 
 // every index a case refers to must have a name bound by the lets
 func maxIndex(in Input) int {
@@ -800,7 +830,7 @@ func Render(in Input, obs *Observation, crash string) core.Case {
 		}
 		fmt.Fprintf(&lets, "let %s := %s in ", sname(i), lit)
 	}
-	if in.Via == "operator" {
+	if isOperator(in) {
 		if obs != nil && obs.Err != "" && crash == "" {
 			crash = "rig: " + obs.Err
 		}
@@ -808,13 +838,17 @@ func Render(in Input, obs *Observation, crash string) core.Case {
 		if obs != nil {
 			loaded = obs.Loaded
 		}
-		c.Coq = fmt.Sprintf("(COp (%s\n (%s,\n  (%s,\n  %s))))", lets.String(), coqInput(in, alphabet, invalid),
-			core.CoqList(loaded, func(l []int) string { return core.CoqList(l, core.CoqN) }), core.CoqList(steps, coqHobs))
+		class, step := "COp", coqHobs
+		if in.Via == "queues" {
+			class, step = "CQ", coqQobs
+		}
+		c.Coq = fmt.Sprintf("(%s (%s\n (%s,\n  (%s,\n  %s))))", class, lets.String(), coqInput(in, alphabet, invalid),
+			core.CoqList(loaded, func(l []int) string { return core.CoqList(l, core.CoqN) }), core.CoqList(steps, step))
 	} else {
 		c.Coq = fmt.Sprintf("(CCtl (%s\n (%s,\n  %s)))", lets.String(), coqInput(in, alphabet, invalid), core.CoqList(steps, coqObs))
 	}
 	js := map[string]any{"steps": steps, "alphabet": alphabet, "invalid": invalid, "crash": crash}
-	if in.Via == "operator" && obs != nil {
+	if isOperator(in) && obs != nil {
 		js["loaded_ids"] = obs.Loaded
 	}
 	c.JSON = js
@@ -1629,6 +1663,9 @@ func Gen(r *core.Rng, tier string) ([]core.In[Input], bool) {
 	for _, c := range startCorpus() {
 		ins = append(ins, core.In[Input]{Input: c, Stream: "corpus"})
 	}
+	for _, c := range queuesCorpus() {
+		ins = append(ins, core.In[Input]{Input: c, Stream: "corpus"})
+	}
 	g := &gen{r: r}
 	nRandom, maxLen := 500, 20
 	nOperator := 160
@@ -1719,6 +1756,28 @@ func Gen(r *core.Rng, tier string) ([]core.In[Input], bool) {
 			ins = append(ins, core.In[Input]{Input: in, Stream: "exhaustive-start"})
 		}
 	}
+	// the queues class (forked as well)
+	gq := &gen{r: r.Fork()}
+	nQueues := 70
+	switch tier {
+	case "thorough":
+		nQueues = 2500
+	case "search":
+		nQueues = 800
+	}
+	for k := 0; k < nQueues; k++ {
+		ins = append(ins, core.In[Input]{Input: gq.queuesCase(14), Stream: "queues"})
+	}
+	if tier == "thorough" {
+		for _, in := range exhaustiveQueues(5) {
+			ins = append(ins, core.In[Input]{Input: in, Stream: "exhaustive-queues"})
+		}
+	}
+	if tier == "search" {
+		for _, in := range exhaustiveQueues(4) {
+			ins = append(ins, core.In[Input]{Input: in, Stream: "exhaustive-queues"})
+		}
+	}
 	return spreadOperator(ins), false
 }
 
@@ -1732,7 +1791,7 @@ func spreadOperator(ins []core.In[Input]) []core.In[Input] {
 		switch {
 		case in.Stream == "corpus":
 			head = append(head, in)
-		case in.Input.Via == "operator":
+		case isOperator(in.Input):
 			slow = append(slow, in)
 		default:
 			fast = append(fast, in)
@@ -1755,7 +1814,7 @@ func spreadOperator(ins []core.In[Input]) []core.In[Input] {
 }
 
 var Driver = core.Driver[Input, Observation]{
-	Spec: core.Spec{Property: "C11", Imports: []string{"C11_Model", "C11_Spec", "C11_Hm", "C11_HmSpec", "C11_Corr"}, Corr: "C11_Corr", Triggers: nil, ShrinkKey: "ops",
+	Spec: core.Spec{Property: "C11", Imports: []string{"C11_Model", "C11_Spec", "C11_Hm", "C11_HmSpec", "C11_QModel", "C11_QSpec", "C11_Corr"}, Corr: "C11_Corr", Triggers: nil, ShrinkKey: "ops",
 		Rule: "1-3 hooks (0-3 schedule bindings each: crontab STRING, uuid-like id, name, group, allowFailure, snapshots, queue) (binding names repeat within a hook in 30% of the draws) with real ScheduleBindingsControllers sharing one real scheduleManager; " +
 			"every case has its own table of 3-5 crontab strings drawn from 5 schedules x 4-6 spellings (single-spaced, double spaces, tabs, leading/trailing blanks, other text for the same schedule, letter case); 45% of the cases contain at least two spellings of one schedule (tags spelling:*); parsability is asked of the real cron.Parse; " +
 			"operations Add/Remove of (crontab,id) over the table x 4 ids directly on the manager, Enable/Disable of a hook's bindings, Fire of a string (CanHandleEvent/HandleEvent of every controller), " +
